@@ -74,12 +74,14 @@ type Exec struct {
 	Panics   map[int]any
 	Steps    int
 	Ticks    uint64
+	Shared   int // package-level locations accessed by more than one thread in this execution (collision indicator)
 }
 
 type loc struct {
 	lastWrite Access
 	hasWrite  bool
 	reads     map[int]Access
+	threads   uint64 // bitmask of threads that accessed this location
 }
 
 type Sched struct {
@@ -146,6 +148,7 @@ func access(name string, site int, write bool) {
 		l = &loc{reads: map[int]Access{}}
 		s.locs[name] = l
 	}
+	l.threads |= 1 << uint(t.ID)
 	me := Access{Thread: t.ID, Epoch: t.VC[t.ID], Site: site, Write: write}
 	ordered := func(a Access) bool { return a.Thread == t.ID || a.Epoch <= t.VC[a.Thread] }
 	if l.hasWrite && !ordered(l.lastWrite) {
@@ -327,6 +330,11 @@ func Run(bodies []func(), choose Chooser, horizon int) *Exec {
 		}
 	}
 	s.exec.Ticks = ticks.Load() - t0
+	for _, l := range s.locs {
+		if l.threads&(l.threads-1) != 0 {
+			s.exec.Shared++
+		}
+	}
 	return s.exec
 }
 
